@@ -285,7 +285,7 @@ def norm(table):
 
         def fmt(x):
             if isinstance(x, (float, np.floating)):
-                return str(round(float(x), 6))
+                return str(round(float(x), 5))
             return str(x)
         out[t] = sorted((tuple(atoms), tuple(fmt(x) for x in params), tuple(sorted((k, str(v)) for k, v in meta.items())))
                         for atoms, params, meta in lst)
@@ -478,7 +478,7 @@ def synth_ff_text(rnd):
     for li in range(nlinks):
         kind = rnd.choice(['bond+', 'bond+', 'angle', 'dihedral', 'gt', 'star', 'nonedge', 'pattern', 'molmeta', 'replace',
                            'remove', 'remove', 'override', 'explicit-order', 'choice', 'geom', 'star-intra', 'gt-intra', 'same-order',
-                           'three-orders', 'three-orders'])
+                           'three-orders', 'three-orders', 'geom-angle'])
         out.append('[ link ]')
         if kind == 'bond+':
             if rnd.random() < 0.5:
@@ -548,6 +548,9 @@ def synth_ff_text(rnd):
             out[-3] = out[-3]
         elif kind == 'choice':
             out += ['[ atoms ]', 'A {"resname": "XA|XC"}', '+A {"resname": "XB"}', '[ bonds ]', 'A +A 1 0.33 1100 {"version": 4}']
+        elif kind == 'geom-angle':
+            # an angle whose reference value is taken from the structure; the A atoms of some molecules lie on one line
+            out += ['[ angles ]', 'A +A ++A 2 angle(A,+A,++A) 25 {"version": 6}', '[ edges ]', 'A +A', '+A ++A']
         elif kind == 'geom':
             out += ['[ bonds ]', 'A +B 1 dist(A,+B) 1250 {"version": 5}', '[ edges ]', 'A +A', '+A +B',
                     '[ non-edges ]' if False else '; geometry']
@@ -571,6 +574,13 @@ def build_synth(rnd):
     key = 0
     first = {}
     prev = None
+    # in some molecules the A atoms lie exactly on one line (stretched or folded back), in a direction off the axes: the cosine of
+    # the angle between them is +-1 up to rounding, on either side
+    line = None
+    if rnd.random() < 0.3:
+        d_ = rnd.choice([np.array([1.0, 1.0, 1.0]), np.array([0.3, -0.7, 0.2]), np.array([rnd.uniform(-1, 1) for _ in range(3)]),
+                         np.array([0.0, 1.0, 0.0])])
+        line = (np.array([rnd.uniform(0, 1) for _ in range(3)]), d_, [0.0])
     for i in range(L):
         rn = rnd.choice(['XA', 'XA', 'XB', 'XC'])
         blk = ff.blocks[rn]
@@ -579,6 +589,9 @@ def build_synth(rnd):
             local[an] = key
             mol.add_node(key, atomname=an, resname=rn, resid=resid, chain='A', atype=blk.nodes[an]['atype'], charge_group=key + 1,
                          position=np.array([rnd.uniform(0, 2), rnd.uniform(0, 2), rnd.uniform(0, 2)]))
+            if line is not None and an == 'A':
+                line[2][0] += rnd.choice([0.35, 0.35, 0.47, -0.2, 1.0])
+                mol.nodes[key]['position'] = line[0] + line[2][0] * line[1]
             key += rnd.choice([1, 1, 2])
         for inter in blk.interactions.get('bonds', []):
             u, v = inter.atoms
